@@ -486,6 +486,8 @@ impl VersionState {
         }
 
         let start_time = Instant::now();
+        #[cfg(feature = "verif-hooks")]
+        crate::verif_hooks::sched_point(crate::verif_hooks::site::VS_READER_BEFORE_LOCK);
 
         // For levels that require synchronization, acquire version under lock
         let (version, min_version) = if self.concurrency_level.requires_synchronization() {
@@ -507,6 +509,8 @@ impl VersionState {
             self.active_readers.fetch_add(1, Ordering::Relaxed);
             (1, 1)
         };
+        #[cfg(feature = "verif-hooks")]
+        crate::verif_hooks::sched_point(crate::verif_hooks::site::VS_READER_AFTER_VERSION);
 
         // Update statistics
         if let Ok(mut stats) = self.stats.lock() {
@@ -539,6 +543,8 @@ impl VersionState {
         }
 
         let start_time = Instant::now();
+        #[cfg(feature = "verif-hooks")]
+        crate::verif_hooks::sched_point(crate::verif_hooks::site::VS_WRITER_AFTER_CHECK);
 
         // Acquire version under lock for synchronized levels
         let (version, min_version) = if self.concurrency_level.requires_synchronization() {
@@ -569,6 +575,8 @@ impl VersionState {
             self.active_writers.fetch_add(1, Ordering::Relaxed);
             (1, 1)
         };
+        #[cfg(feature = "verif-hooks")]
+        crate::verif_hooks::sched_point(crate::verif_hooks::site::VS_WRITER_AFTER_VERSION);
 
         // Update statistics
         if let Ok(mut stats) = self.stats.lock() {
@@ -591,6 +599,8 @@ impl VersionState {
     /// Internal method to release a reader token.
     fn release_reader_token(&self, token_version: u64) {
         self.active_readers.fetch_sub(1, Ordering::Relaxed);
+        #[cfg(feature = "verif-hooks")]
+        crate::verif_hooks::sched_point(crate::verif_hooks::site::VS_RELEASE_AFTER_DECREMENT);
 
         // Update minimum version if this was the head token
         if self.concurrency_level.requires_synchronization() {
@@ -606,6 +616,8 @@ impl VersionState {
     /// Internal method to release a writer token.
     fn release_writer_token(&self, token_version: u64) {
         self.active_writers.fetch_sub(1, Ordering::Relaxed);
+        #[cfg(feature = "verif-hooks")]
+        crate::verif_hooks::sched_point(crate::verif_hooks::site::VS_RELEASE_AFTER_DECREMENT);
 
         // Update minimum version if this was the head token
         if self.concurrency_level.requires_synchronization() {
@@ -623,6 +635,8 @@ impl VersionState {
     /// This is a simplified version - in a full implementation, this would
     /// track individual token versions in a linked list.
     fn try_advance_min_version(&self) {
+        #[cfg(feature = "verif-hooks")]
+        crate::verif_hooks::sched_point(crate::verif_hooks::site::VS_ADVANCE_AFTER_LOAD1);
         // Serialize with token acquisition: tokens are counted under this lock, so
         // seeing zero counts here means no token with an assigned version is live,
         // and no new version can be handed out before the store below.
